@@ -49,8 +49,13 @@ def params_of(fn) -> Set[str]:
     return out
 
 
+_ESC_CACHE: Dict[int, Set[str]] = {}
+
+
 def escaping_names(fn) -> Set[str]:
     """Names declared global / nonlocal, or used by a nested function: not private to this function's straight-line code."""
+    if id(fn) in _ESC_CACHE:
+        return _ESC_CACHE[id(fn)]
     out = set()
     for n in ast.walk(fn):
         if isinstance(n, (ast.Global, ast.Nonlocal)):
@@ -606,7 +611,36 @@ def sink_loop_exit(fn: ast.AST) -> int:
                 brk = own_jumps(st.body, (ast.Break,))
                 in_try = any(isinstance(x, ast.Try) and any(isinstance(y, ast.Break) for y in ast.walk(x)) for x in ast.walk(st))
                 size = sum(1 for x in tail for _ in ast.walk(x))
-                if tail and 1 <= len(brk) <= 4 and not in_try and _always_leaves(tail) and size <= 80 and not any(isinstance(x, FUNC) for t in tail for x in ast.walk(t)):
+                flags = set()
+                for t in tail:
+                    if isinstance(t, ast.If):
+                        e = t.test.operand if isinstance(t.test, ast.UnaryOp) and isinstance(t.test.op, ast.Not) else t.test
+                        if isinstance(e, ast.Name):
+                            flags.add(e.id)
+
+                def flagged(ss) -> bool:
+                    """every break of the loop directly follows `flag = <constant>` for a flag the tail tests"""
+                    for k, x in enumerate(ss):
+                        if isinstance(x, ast.Break):
+                            j, hit = k - 1, False
+                            while j >= 0 and plain_assign(ss[j]):
+                                if plain_assign(ss[j]) in flags and isinstance(ss[j].value, ast.Constant):
+                                    hit = True
+                                j -= 1
+                            if not hit:
+                                return False
+                        elif isinstance(x, FUNC) or isinstance(x, (ast.For, ast.While, ast.AsyncFor)):
+                            continue
+                        else:
+                            for fld in ("body", "orelse", "finalbody"):
+                                if getattr(x, fld, None) and not flagged(getattr(x, fld)):
+                                    return False
+                            for h in getattr(x, "handlers", []) or []:
+                                if not flagged(h.body):
+                                    return False
+                    return True
+                if tail and flags and 1 <= len(brk) <= 4 and not in_try and _always_leaves(tail) and size <= 80 and not any(isinstance(x, FUNC) for t in tail for x in ast.walk(t)) \
+                        and flagged(st.body):
                     st.body = replace_breaks(st.body, tail)
                     count[0] += 1
         return stmts
@@ -620,6 +654,15 @@ def sink_loop_exit(fn: ast.AST) -> int:
 def simplify_defensive(fn: ast.AST) -> int:
     if not isinstance(fn, (ast.FunctionDef, ast.AsyncFunctionDef)):
         return 0
+    _ESC_CACHE.pop(id(fn), None)
+    _ESC_CACHE[id(fn)] = escaping_names(fn)      # (nested functions and global declarations are not touched by these rewrites)
+    try:
+        return _simplify_defensive(fn)
+    finally:
+        _ESC_CACHE.pop(id(fn), None)
+
+
+def _simplify_defensive(fn: ast.AST) -> int:
     total = 0
     for _round in range(6):
         count = [0]
@@ -1162,6 +1205,7 @@ def recover_loops(fn: ast.AST) -> int:
 BIN_OPS = {"add": ast.Add, "concat": ast.Add, "sub": ast.Sub, "mul": ast.Mult, "truediv": ast.Div, "floordiv": ast.FloorDiv, "mod": ast.Mod, "pow": ast.Pow,
            "and_": ast.BitAnd, "or_": ast.BitOr, "xor": ast.BitXor, "lshift": ast.LShift, "rshift": ast.RShift, "matmul": ast.MatMult}
 CMP_OPS = {"eq": ast.Eq, "ne": ast.NotEq, "lt": ast.Lt, "le": ast.LtE, "gt": ast.Gt, "ge": ast.GtE, "is_": ast.Is, "is_not": ast.IsNot}
+_FUNCTIONAL_NAMES = set(BIN_OPS) | set(CMP_OPS) | {"contains", "not_", "neg", "truth", "getitem", "map", "filter", "next", "any", "reduce", "chain", "format", "getattr", "list"}
 PURE_MAKERS = {"functools.partial", "operator.itemgetter", "operator.attrgetter", "operator.methodcaller"}
 _fresh = [0]
 
@@ -1268,6 +1312,9 @@ def defunctionalize_call(n: ast.Call, resolve) -> Optional[ast.AST]:
     if isinstance(f, ast.Lambda) and not n.keywords and not any(isinstance(a, ast.Starred) for a in n.args):
         return apply_callable(f, list(n.args))
     if isinstance(f, ast.Call) and not any(isinstance(a, ast.Starred) for a in n.args + f.args):
+        last = f.func.id if isinstance(f.func, ast.Name) else getattr(f.func, "attr", None)
+        if last not in ("partial", "itemgetter", "attrgetter", "methodcaller"):
+            return None
         fq = resolve(f.func)
         # F2
         if fq == "functools.partial" and f.args and not any(k.arg is None for k in f.keywords + n.keywords):
@@ -1299,6 +1346,9 @@ def defunctionalize_call(n: ast.Call, resolve) -> Optional[ast.AST]:
         for x in a[0].elts:
             vals += list(x.values) if isinstance(x, ast.JoinedStr) else [x]
         return ast.JoinedStr(values=vals)
+    last = f.id if isinstance(f, ast.Name) else f.attr
+    if last not in _FUNCTIONAL_NAMES:
+        return None
     q = resolve(f)
     if not q or any(isinstance(a, ast.Starred) for a in n.args):
         return None
